@@ -150,6 +150,40 @@ def case_map(rec, width, keys, kind, check_entries=True):
             ('load_dict', lambda: Builder().store_dict(cell).end_cell().begin_parse().load_dict(width, None, DESER[kind])),
             ('preload_dict', lambda: Builder().store_uint(1, 1).store_dict(cell).end_cell().begin_parse().skip_bits(1).preload_dict(width, None, DESER[kind])),
         ]
+    if check_entries:
+        # key deserialisers receive the full key: `width` bits, leading zeros included
+        def bitkeys():
+            got = HashMap.parse(cell.begin_parse(), width, lambda bits: bits, DESER[kind])
+            bad = [k for k in got if not isinstance(k, str) or len(k) != width]
+            if bad:
+                raise AssertionError(f'key deserializer was handed {bad[0]!r} for a {width}-bit key')
+            return {int(k, 2): v for k, v in got.items()}
+
+        def signedkeys():
+            got = HashMap.parse(cell.begin_parse(), width, lambda bits: Builder().store_bits(bits).end_cell().begin_parse().load_int(width), DESER[kind])
+            return {k % (1 << width): v for k, v in got.items()}
+
+        def two_dicts():
+            # an optional dictionary is ONE field among others: a second dictionary and a plain reference follow it
+            # (same key set - it is known to fit - with other values)
+            hm2 = make_map(width, keys, kind)
+            for k in keys:
+                hm2.set_int_key(k, val_for(k + 7, kind)[0])
+            cell2 = hm2.serialize()
+            marker = Builder().store_uint(0xA5, 8).end_cell()
+            s = Builder().store_dict(cell).store_dict(cell2).store_ref(marker).store_uint(5, 3).end_cell().begin_parse()
+            d1 = s.load_dict(width, None, DESER[kind])
+            d2 = s.load_dict(width, None, DESER[kind])
+            r = s.load_ref()
+            tail = s.load_uint(3)
+            if d2 != {k: val_for(k + 7, kind)[0] for k in keys}:
+                raise AssertionError(f'second dictionary of the same cell came back as {str(d2)[:100]}')
+            if r.hash != marker.hash or tail != 5 or s.remaining_refs or s.remaining_bits:
+                raise AssertionError('the reference / bits that follow two dictionaries are not what was stored')
+            return d1
+        entries += [('parse:bit-string-keys', bitkeys), ('two-dicts-then-ref', two_dicts)]
+        if width <= 257:
+            entries.append(('parse:signed-keys', signedkeys))
     for name, thunk in entries:
         rec.trans()
         try:
